@@ -5,10 +5,24 @@
     for every instance of the external functions (bcrypt, URL splitting,
     address parsing, data directory), which enter as the oracle record [O]. *)
 From Coq Require Import List ZArith String.
-From AGH Require Import Model.Migrate Proofs.Migrate Proofs.MigrateFrame Proofs.MigrateSim.
+From AGH Require Import Model.Migrate Proofs.Migrate Proofs.MigrateFrame Proofs.MigrateSim
+  Proofs.MigrateTable Gen.MigrateTable.
 Import ListNotations.
 Local Open Scope string_scope.
 Local Open Scope Z_scope.
+
+(** The step table read out of migrator.go at this run is the one the model
+    composes: same step functions in the same order, entry [i] stamping
+    version [i+1], same LastSchemaVersion, nothing the reader could not resolve. *)
+Theorem C13_table_matches_source : forall O,
+  map (fun e => snd (fst e)) step_table = map fst (steps O) /\
+  map (fun e => fst (fst e)) step_table = seq 0 (List.length (steps O)) /\
+  map snd step_table = map (fun i => Z.of_nat (S i)) (seq 0 (List.length (steps O))) /\
+  last_schema_version = last_version /\
+  Z.of_nat (List.length (steps O)) = last_version /\
+  unresolved = [].
+Proof. exact table_matches. Qed.
+Print Assumptions C13_table_matches_source.
 
 (** For every decoded document (including the nil map an explicit null
     document leaves), every target: no run-time panic. *)
